@@ -249,3 +249,18 @@ Definition check_bodytext (c : bodytext_case) : bool :=
   | T4V.C03.Vec.Err _, None => true
   | _, _ => false
   end.
+
+(* (o) a macrobody card text WITH a TR number (the TR card's twelve numbers are
+   given under the number 5) *)
+Definition bodytexttr_case : Type :=
+  (list float * string * option (list (t4type * list float * Z)))%type.
+Definition check_bodytexttr (c : bodytexttr_case) : bool :=
+  let '(tr, txt, expected) := c in
+  match convert_text_body_tr_g FS [(5%Z, tr)] txt, expected with
+  | T4V.C03.Vec.Ok l, Some l' =>
+      all2 (fun (a : T4V.C03.Convert.t4type * list float * Z) (b : t4type * list float * Z) =>
+              let '(ka, pa, sa) := a in let '(kb, pb, sb) := b in
+              t4type_eqb (kind_of3 ka) kb && floats_eqb pa pb && Z.eqb sa sb) l l'
+  | T4V.C03.Vec.Err _, None => true
+  | _, _ => false
+  end.
